@@ -131,6 +131,21 @@ PROPS = {
              "the same values (each a distinct input)",
         exhaustive=True,
     ),
+    "C08": dict(
+        level="model_checking",
+        level_text="TLC checks Inv_Counts on every history of at most 6 calls of the complete-writer specification; every history of "
+                   "at most 4 calls over {good pair, shape of another type, row missing a field, row with a wrong-typed value} (13 "
+                   "types, in memory and by path, plus long random ones) is performed on the real Writer and validated as a behaviour "
+                   "of the specification; at drop TLC counts records / index entries / declared rows in the real bytes and compares "
+                   "the pairs returned by Reader::read, iter_shapes_and_records and shapefile::read(path)",
+        level_note="trusted: TLC; rows are opaque ids (dbase internals are outside the specification); one open known finding "
+                   "(C08-row-rejected-after-shape) is accepted through a named deviation action only when the files show exactly its signature",
+        technique=TECH_TRACE,
+        mc=[dict(module="MC_Complete", quick="MC_Complete.cfg", workers=4)],
+        stages=[dict(cmd="complete", spec="Trace_Complete", quick=dict(chunks=8, maxlen=4, types=13, random=6),
+                     thorough=dict(chunks=16, maxlen=6, types=13, random=60))],
+        rule="a run = one history of write_shape_and_record calls on a fresh Writer, every call with its own shape and row id",
+    ),
     "C09": dict(
         level="model_checking",
         level_text="TLC explores every history over {write a, write b, write x, finalize} up to the bound on the writer "
